@@ -13,7 +13,7 @@ KIND = 'explorer'
 LEVEL = 'model_checking'
 LIVE = {'thorough': ['incr-decr-restart', 'exit3-respawn']}
 GRAPH = {'quick': 2, 'thorough': 3}
-BUDGET = {'quick': 150, 'thorough': 1500}
+BUDGET = {'quick': 900, 'thorough': 10800}
 RULE = ('breadth-first search over canonical quiescent daemon states; from every new state all bursts of '
         '<= (1 request + 1 worker death) placed at every loop-iteration boundary '
         '(requests, deaths) and before every kernel call (deaths) of one check period and of whatever the '
